@@ -19,7 +19,8 @@ PlanOf(c) ==
     [] c.fmt_plan \in {"ok_no_read", "ok_partial_read"} -> "garbage_no_read"
     [] c.fmt_plan \in {"near_swap", "near_str_ws", "near_prefix", "near_twice", "near_source_ws", "near_field_swap", "near_swap_raw", "near_str_ws_raw", "near_twice_raw", "near_source_ws_raw", "near_str_case", "near_str_case_raw", "near_drop_last", "near_drop_last_raw"} -> "garbage_after_read"
     [] c.fmt_plan \in {"absent", "noexec", "isdir"} -> "absent"
-    [] c.fmt_plan = "ok_utf8_cut" -> "garbage_after_read"
+    [] c.fmt_plan \in {"ok_utf8_cut", "garbage_utf8_96"} -> "garbage_after_read"
+    [] c.fmt_plan = "ok_sigchld_ignored" -> "killed"   \* the kernel reaps the child behind the parent's back: waiting fails, falling back is allowed
     [] OTHER -> "killed"
 SizeOfCase(c) == IF c.size_class = "large" THEN 3 ELSE 1
 
